@@ -8,6 +8,11 @@ ALL = [f'C{i:02d}' for i in range(1, 21)]
 
 # id -> (level text, level note, technique, design ref)
 CHECKS = {
+    'C01': (
+        'Bounded-exhaustive three-way comparison (generator tree / independent reference recursive-descent parser / lifted real AST): all terms up to the node bound in minimal and full parenthesisation through three entry points, the complete property skeleton universe with time bounds and metadata, all layouts with <= d deviations (E5), all token sequences up to a length bound over the full terminal alphabet and all single (double) token edits of a corpus for accept/reject agreement, keyword-prefixed names in every identifier position, and the .lark files against the embedded grammar.',
+        'The reference parser (hplmc/ref/parse.py) is the trusted definition of the documented grammar; texts in which an identifier equals a keyword are skipped and counted; an ill-formed text rejected by an earlier type/sanity error is not counted as a violation.',
+        'bounded exhaustive text/token-sequence enumeration with a differential reference parser; deviation-bounded layout exploration',
+    ),
     'C06': (
         'Bounded-exhaustive exploration of print/parse: every AST the parser returns on all terms up to the node bound (quick 4, thorough 5) covering every expression node kind, all 27 functions x argument shapes, the complete property skeleton universe (widths up to 3/4) with decorations and time bounds, specifications of 1-3 properties and a grid of up to 260 000 time bounds; str -> same entry point -> ==, hash, second str, plus a run-wide injectivity map from printed text to typed tree.',
         'Equality of typed lifted trees is the reference notion of same AST; texts outside the enumerated universes are not covered.',
